@@ -92,7 +92,7 @@ def registry():
         if op == "Act":
             return _rn(g, *shape, 3 if v % 2 else 4)
         a = _lie(g, ALGEBRA[grp], *shape)
-        if op in ("add", "add_") or v % 2:
+        if op != "Retr" and (op in ("add", "add_") or v % 2):
             return a.tensor().clone()
         return a
     bshapes = [((), ()), ((3,), (3,)), ((2, 1), (1, 3)), ((1,), (4,)), ((0,), (1,)), ((2, 3), ())]
@@ -281,7 +281,7 @@ def registry():
         R["pp.optim.kernel." + kn] = (lambda kn=kn: lambda g, v: (getattr(P.optim.kernel, kn)(), (_rn(g, 5).abs(),), {}))()
     for cn in ["FastTriggs", "Triggs"]:
         R["pp.optim.corrector." + cn] = (lambda cn=cn: lambda g, v: (
-            getattr(P.optim.corrector, cn)(P.optim.kernel.Huber()), (_rn(g, 4, 2), _rn(g, 4, 2, 3)), {}))()
+            getattr(P.optim.corrector, cn)(P.optim.kernel.Huber()), (_rn(g, 4, 2), _rn(g, 8, 3)), {}))()
     for sn in ["PINV", "LSTSQ", "Cholesky", "CG"]:
         R["pp.optim.solver." + sn] = (lambda sn=sn: lambda g, v: (
             getattr(P.optim.solver, sn)(), (_spd(g, 4)[None], _rn(g, 1, 4, 1)), {}))()
@@ -315,6 +315,11 @@ def registry():
     @reg("pp.Parameter")
     def _(g, v):
         return P.Parameter, (_lie(g, LTYPES[v % 8], 3),), {}
+
+    @reg("LieTensor.new_empty")
+    def _(g, v):
+        lt = LTYPES[v % 8]
+        return _meth("new_empty"), (_lie(g, lt, 2), (3, DIM[lt])), {}
 
     @reg("pp.LieTensor")
     def _(g, v):
